@@ -1,3 +1,21 @@
+(** Mclient: effect lemmas for the primitives of Model/Client.v, the structural invariant [basic] (T_basic) and
+    the no-twin invariant outside F-RENEWMAP (T_no_twin). Statements: Proofs/ClientInvDefs.v. The server is used
+    only through [srv_facts_hold] (Proofs/ClientSrv.v); [srv_event] is opaque here.
+
+    Contents
+      generic          step_crashed run_from_app any_pre_orb run_inv key_of_inj key_of_xkey
+      set_ren          set_ren_holds set_ren_other set_ren_<field> ren_of_set_ren
+      relations        hold_le hold_sim (reflexive, transitive), [ren_frame adv J st st'] (record; refl / trans /
+                       weaken / lookup lemmas) and its atoms frame_emit frame_do_crash frame_set_srv frame_set_ren
+      primitives       <prim>_frame, <prim>_srv, <prim>_crashed for stop_renewer ren_send ren_recv set_arm ren_send_on
+                       ren_fire do_step srv_advance_to adv_loop do_advance stop_all; do_close_eq; do_compete_spec;
+                       do_probe_frame; next_fire_some / _min / _none
+      Unlock           do_unlock_eq = unlock_stop ; unlock_rpc ; mark_unl, each with its frame / spec
+      Lock / TryLock   do_acquire_cases acquire_event_facts acquire_answered_fields
+      basic            basic_frame basic_push ... basic_init basic_step t_basic
+      steps            step_holds_cases step_hold_mono run_hold_mono step_exited step_now(_mono/_same)
+                       step_crash_kinds do_unlock_crashed do_acquire_crashed
+      no twin          no_twin_step no_outofsync_step t_no_twin *)
 From Coq Require Import Lia ZifyBool ZifyNat ZifyN Decimal DecimalNat.
 From Ldlm Require Import Model.Base Model.Err Model.Seq Model.Client Gen.Consts Proofs.SeqLemmasKey
   Proofs.ClientSrvDefs Proofs.ClientSrv Proofs.ClientInvDefs.
@@ -1188,3 +1206,168 @@ Proof.
   - destruct (do_compete_spec name size st) as (s2 & g & -> & _). cbn. congruence.
   - cbn. congruence.
 Qed.
+
+(** * No twins outside F-RENEWMAP *)
+
+Lemma no_twin_le st st' : Forall2 hold_le (cs_holds st) (cs_holds st') → no_twin st → no_twin st'.
+Proof.
+  intros F N i i' h1' h2' Hne H1 H2 Hn Hl1 Hl2 Hu1 Hu2.
+  destruct (Forall2_lookup_r _ _ _ _ _ F H1) as (h1 & G1 & (S1 & U1 & _)).
+  destruct (Forall2_lookup_r _ _ _ _ _ F H2) as (h2 & G2 & (S2 & U2 & _)).
+  apply static_eq in S1 as (A1 & A2 & A3 & A4). apply static_eq in S2 as (C1 & C2 & C3 & C4).
+  rewrite A3, C3. apply (N i i' h1 h2); try congruence.
+  - destruct (h_unl h1); [|done]. rewrite U1 in Hu1; done.
+  - destruct (h_unl h2); [|done]. rewrite U2 in Hu2; done.
+Qed.
+
+Lemma twin_free name T hs i h : existsb (twin_of name T) hs = false → hs !! i = Some h →
+  h_name h = name → h_locked h = true → h_unl h = false → T = 0 ∧ h_T h = 0.
+Proof.
+  intros He Hi Hn Hl Hu.
+  assert (twin_of name T h = false) as Ht.
+  { destruct (twin_of name T h) eqn:E; [|done]. rewrite <- He. symmetry. apply existsb_exists.
+    exists h. split; [|done]. apply elem_of_list_In. by eapply elem_of_list_lookup_2. }
+  unfold twin_of in Ht. rewrite Hl, Hu, bool_decide_eq_true_2 in Ht by done. cbn in Ht.
+  destruct (Z.eqb_spec T 0), (Z.eqb_spec (h_T h) 0); done.
+Qed.
+
+(** the grant of hold j: no twin in the table means no new pair ... *)
+Lemma acquire_no_twin cc b name T size st :
+  no_twin st →
+  (∀ hn, cs_holds (do_acquire cc b name T size st) !! length (cs_holds st) = Some hn → h_locked hn = true →
+         existsb (twin_of name T) (cs_holds st) = false) →
+  no_twin (do_acquire cc b name T size st).
+Proof.
+  intros N Hg.
+  assert (∀ hn, cs_holds (do_acquire cc b name T size st) = cs_holds st ++ [hn] → h_name hn = name → h_T hn = T →
+            no_twin (do_acquire cc b name T size st)) as Hpush.
+  { intros hn Eh En ET.
+    assert (∀ i h, i ≠ length (cs_holds st) → (cs_holds st ++ [hn]) !! i = Some h → cs_holds st !! i = Some h) as Hold.
+    { intros i h Hi [?|[Hj Hl]]%lookup_app_Some; [done|].
+      destruct (i - length (cs_holds st))%nat as [|n] eqn:E; [lia|done]. }
+    assert (∀ i h, h_locked hn = true → cs_holds st !! i = Some h → h_name h = name → h_locked h = true →
+              h_unl h = false → T = 0 ∧ h_T h = 0) as Hfree.
+    { intros i h Hl. apply twin_free, (Hg hn); [|done]. rewrite Eh. by apply list_lookup_middle. }
+    intros i i' h h' Hne. rewrite Eh. intros H1 H2 Hn Hl1 Hl2 Hu1 Hu2.
+    destruct (decide (i = length (cs_holds st))) as [->|Hi], (decide (i' = length (cs_holds st))) as [->|Hi'].
+    - done.
+    - rewrite list_lookup_middle in H1 by done. injection H1 as <-. apply Hold in H2; [|done].
+      rewrite ET. destruct (Hfree _ _ Hl1 H2) as [? ?]; try done. congruence.
+    - rewrite list_lookup_middle in H2 by done. injection H2 as <-. apply Hold in H1; [|done].
+      rewrite ET. destruct (Hfree _ _ Hl2 H1) as [? ?]; try done. congruence.
+    - apply Hold in H1; [|done]. apply Hold in H2; [|done]. by apply (N i i' h h'). }
+  destruct (do_acquire_cases cc b name T size st) as [[Hc E]|[[Hc E]|(Hc & srv' & locked & key & e & rest & Hs & E)]].
+  - eapply Hpush; [rewrite E; reflexivity|done..].
+  - rewrite E. exact N.
+  - destruct (acquire_answered_fields cc (if b then KLock else KTryLock) (length (cs_holds st)) name T st srv' locked key e)
+      as (hn & E1 & E2 & E3 & E4 & _).
+    cbv zeta in *. rewrite <- E in *. by eapply Hpush.
+Qed.
+
+(** ... and no renewMap collision (by [b_map] the entry found would be a twin) *)
+Lemma acquire_no_outofsync cc b name T size st :
+  basic cc st →
+  (∀ hn, cs_holds (do_acquire cc b name T size st) !! length (cs_holds st) = Some hn → h_locked hn = true →
+         existsb (twin_of name T) (cs_holds st) = false) →
+  cs_crashed st = None → cs_crashed (do_acquire cc b name T size st) = None.
+Proof.
+  intros B Hg Hn.
+  destruct (cs_crashed (do_acquire cc b name T size st)) as [c|] eqn:Hx; [exfalso|done].
+  pose proof Hx as Hx'. apply do_acquire_crashed in Hx' as (-> & Hna & HT & Hcl & i & Hm); [|done].
+  destruct (do_acquire_cases cc b name T size st) as [[Hc E]|[[Hc E]|(Hc & srv' & locked & key & e & rest & Hs & E)]];
+    [congruence|rewrite E in Hx; cbn in Hx; congruence|].
+  destruct (acquire_answered_fields cc (if b then KLock else KTryLock) (length (cs_holds st)) name T st srv' locked key e)
+      as (hn & E1 & E2 & E3 & E4 & E5 & E6 & E7 & _ & E8 & _ & _ & _ & E9).
+  cbv zeta in *. rewrite <- E in *.
+  destruct (locked && negb (cc_noauto cc) && negb (T =? 0)) eqn:Ha; [|destruct E9 as [_ E9]; congruence].
+  destruct (b_map _ _ B _ _ Hm) as (h & Hh & P1 & P2 & P3 & P4 & _).
+  assert (h_locked hn = true) as Hl by (rewrite E5; apply orb_true_r).
+  assert ((cs_holds st ++ [hn]) !! length (cs_holds st) = Some hn) as Hlk by (by apply list_lookup_middle).
+  rewrite <- E1 in Hlk. destruct (twin_free _ _ _ _ _ (Hg _ Hlk Hl) Hh P1 P2 P3) as [_ ?]. done.
+Qed.
+
+Lemma active_true st : cs_crashed st = None → cs_parked st = false → active st = true.
+Proof. intros H1 H2. unfold active. rewrite H1, H2. by rewrite bool_decide_eq_false_2 by (intros H; by apply H). Qed.
+
+(** the side condition of [acquire_no_twin] from the two predicates over the executed schedule *)
+Lemma granted_no_twin cc st it (b : bool) name T size :
+  it = (if b then ILock name T size else ITryLock name T size) →
+  cc_noauto cc = false → cs_crashed st = None → (cs_parked st && is_main_call it) = false →
+  misuse_at st it = false → renewmap_at cc st it = false →
+  step cc st it = do_acquire cc b name T size st ∧
+  ∀ hn, cs_holds (do_acquire cc b name T size st) !! length (cs_holds st) = Some hn → h_locked hn = true →
+        existsb (twin_of name T) (cs_holds st) = false.
+Proof.
+  intros Hit Hna Hc Hp Hmis Hrm.
+  assert (step cc st it = do_acquire cc b name T size st) as Es.
+  { unfold step. rewrite Hc, Hp, Hit. by destruct b. }
+  split; [done|]. intros hn Hh Hl.
+  assert (is_main_call it = true) as Hmain by (rewrite Hit; by destruct b).
+  rewrite Hmain, andb_true_r in Hp.
+  assert (cs_closed st = false) as Hcl.
+  { unfold misuse_at in Hmis. rewrite Hmain, andb_true_r in Hmis. by apply orb_false_elim in Hmis as [-> _]. }
+  unfold renewmap_at in Hrm. rewrite (active_true _ Hc Hp), Hna, Hcl in Hrm. cbn [negb andb] in Hrm.
+  assert (granted_by cc st it = true) as Hg. { unfold granted_by. by rewrite Es, Hh. }
+  rewrite Hit in Hrm. rewrite Hit in Hg. destruct b; rewrite Hg in Hrm; exact Hrm.
+Qed.
+
+Lemma no_twin_step cc st it : cc_noauto cc = false → basic cc st → no_twin st →
+  misuse_at st it = false → renewmap_at cc st it = false → no_twin (step cc st it).
+Proof.
+  intros Hna B N Hmis Hrm.
+  destruct (cs_crashed st) as [c|] eqn:Hc; [by rewrite (step_crashed _ _ _ _ Hc)|].
+  destruct (cs_parked st && is_main_call it) eqn:Hp; [unfold step; by rewrite Hc, Hp|].
+  assert (∀ (b : bool) name T size, it = (if b then ILock name T size else ITryLock name T size) → no_twin (step cc st it)) as Hacq.
+  { intros b name T size Hit. destruct (granted_no_twin cc st it b name T size Hit Hna Hc Hp Hmis Hrm) as [-> Hg].
+    by apply acquire_no_twin. }
+  destruct (step_holds_cases cc st it) as [F|(hn & _ & name & T & size & [->| ->] & _)].
+  - by apply (no_twin_le st).
+  - by apply (Hacq true name T size).
+  - by apply (Hacq false name T size).
+Qed.
+
+Lemma no_outofsync_step cc st it j : cc_noauto cc = false → basic cc st →
+  misuse_at st it = false → renewmap_at cc st it = false → cs_crashed st = None →
+  cs_crashed (step cc st it) ≠ Some (CrOutOfSync j).
+Proof.
+  intros Hna B Hmis Hrm Hc Hx.
+  pose proof (step_crash_kinds cc st it _ Hc Hx) as K.
+  destruct (cs_parked st && is_main_call it) eqn:Hp.
+  { unfold step in Hx. rewrite Hc, Hp in Hx. congruence. }
+  assert (∀ (b : bool) name T size, it = (if b then ILock name T size else ITryLock name T size) → False) as Hacq.
+  { intros b name T size Hit. destruct (granted_no_twin cc st it b name T size Hit Hna Hc Hp Hmis Hrm) as [E Hg].
+    rewrite E in Hx. rewrite (acquire_no_outofsync cc b name T size st B Hg Hc) in Hx. done. }
+  destruct it; cbn in K.
+  - by apply (Hacq true name T size).
+  - by apply (Hacq false name T size).
+  - by destruct K as [? ?].
+  - by destruct K as [? ?].
+  - by destruct K as [? ?].
+  - done.
+  - done.
+  - done.
+  - done.
+Qed.
+
+Theorem t_no_twin : T_no_twin.
+Proof.
+  intros cc sched Hna Hwf Hex.
+  set (bad := λ st it, misuse_at st it || renewmap_at cc st it).
+  set (P := λ st, basic cc st ∧ no_twin st ∧ ∀ j, cs_crashed st ≠ Some (CrOutOfSync j)).
+  assert (P (run cc sched)) as (_ & N & C); [|by split].
+  apply (run_inv cc bad P).
+  - intros st it (B & N & C) Hb. apply orb_false_elim in Hb as [H1 H2].
+    split; [by apply basic_step|]. split; [by apply no_twin_step|].
+    intros j. destruct (cs_crashed st) as [c|] eqn:Hc.
+    + rewrite (step_crashed _ _ _ _ Hc), Hc. apply C.
+    + by apply no_outofsync_step.
+  - split; [apply basic_init|]. split; [|done]. intros i i' h h' _ H. change (cs_holds cinit) with (@nil hold) in H. by rewrite lookup_nil in H.
+  - unfold bad. rewrite (any_pre_orb cc misuse_at (renewmap_at cc)).
+    unfold wf_sched in Hwf. apply negb_true_iff in Hwf. unfold excluded_renewmap in Hex. by rewrite Hwf, Hex.
+Qed.
+Print Assumptions t_no_twin.
+
+Lemma run_basic cc sched : basic cc (run cc sched).
+Proof. apply t_basic. Qed.
+Lemma run_nowait cc sched : nowait (run cc sched).
+Proof. apply (b_waiters cc), t_basic. Qed.
